@@ -39,6 +39,8 @@ def strategy(ctx):
         cfg["nb"] = int(rng.integers(4, 8))
         cfg["na"] = int(rng.integers(3, cfg["nb"]))
         cfg["clip"] = False
+        # the step controller is part of the configuration the checkpointed and the terminal-value routine must share
+        cfg["control"] = [{"kind": "integral"}, {"kind": "pi"}, {"kind": "integral", "safety": 0.8, "factor_min": 0.3, "factor_max": 3.0}][int(rng.integers(0, 3))]
         pool.append(cfg)
 
     @st.composite
@@ -200,7 +202,7 @@ def check_case(case):
 
     # (d) terminal-value routine equals the last entry of the checkpointed routine (same clip flag)
     if case.get("extra") == "terminal":
-        res.label("extra:terminal")
+        res.label("extra:terminal", "control:" + ("default" if cfg.get("control", {"kind": "integral"}) == {"kind": "integral"} else "non_default"))
         outT, evT = ssmcase.run_save_at(case, np.asarray([t0, T]), cfg_extra={"terminal": True, "clip": False})
         ssmcase.compare_marginals(res, "terminal", case, outT["mean"], outT["cov"], ref, pert, idx=[len(B) - 1],
                                   expected=(outB["mean"][[-1]], outB["cov"][[-1]]), lib_idx=[0])
